@@ -96,4 +96,8 @@ def real_edges(edges):
     import numpy as np
 
     edges = np.asarray(edges)
-    return edges.astype(float) if edges.dtype.kind in "iu" else edges
+    if edges.dtype.kind in "iu" or (edges.dtype.kind == "f" and edges.dtype.itemsize < 8):
+        # (also float16 / float32 edges: their sums, squares and cubes would be rounded
+        # - or overflow - in the narrow type)
+        return edges.astype(float)
+    return edges
